@@ -473,6 +473,14 @@ fn lex_variable(input: LexInput) -> InternalLexResult {
     })(input)
 }
 
+/// Verification hook: run the quoted-string lexer on `input`, returning `(parsed, remaining)`.
+#[cfg(rigetti_quil_rs_verif)]
+pub(crate) fn verif_unescaped_quoted_string(input: &str) -> Option<(String, String)> {
+    quoted_strings::unescaped_quoted_string(LocatedSpan::new(input))
+        .ok()
+        .map(|(rest, parsed)| (parsed, rest.fragment().to_string()))
+}
+
 #[cfg(test)]
 mod tests {
     use nom_locate::LocatedSpan;
